@@ -272,6 +272,13 @@ impl Property for C16S {
                 1 => Action::Lines((0..rng.range(2, 4)).map(|_| format!("ioport:{:x}:{:x}", *rng.pick(&ports), rng.u8())).collect()),
                 2 => Action::Lines(vec![format!("ioport:{:x}:{:x}", port, val), "ioport:c:ff".into(), "ioport:0:1".into()]),
                 3 => Action::Lines(vec![format!("u8:{:x}:{:x}", if rng.chance(1, 2) { DDR_BASE } else { DR_BASE } + port as u32 - 1, val)]),
+                // the same numbers in other spellings: upper case, zero-padded
+                4 => Action::Lines(vec![match rng.below(4) {
+                    0 => format!("ioport:{:X}:{:X}", port, val),
+                    1 => format!("ioport:{:02x}:{:02x}", port, val),
+                    2 => format!("ioport:{:x}:{:03x}", port, val),
+                    _ => format!("ioport:{:03X}:{:04X}", port, val),
+                }]),
                 _ => Action::Lines(vec![format!("ioport:{:x}:{:x}", port, val)]),
             };
             events.push(Event { trig: at, act });
